@@ -213,12 +213,6 @@ func main() {
 			c.Violate(f.Sig, "after restart: "+f.Desc, sh, ix, rep)
 		}
 		seen := map[string]bool{}
-		// too-long reports of the first run (before the crash) excuse their ranges
-		for k, v := range tlTargets(first, j.point) {
-			if v > j.res.TLTarget[k] {
-				j.res.TLTarget[k] = v
-			}
-		}
 		j.res.H.Cfg.Base = first.H.Cfg.Base
 		for _, f := range updsim.CheckNoLoss(j.res, first.Trace[:j.point]) {
 			if !seen[f.Sig] {
@@ -232,27 +226,4 @@ func main() {
 	c.Obs.Extra = map[string]interface{}{"crash_points_examined": prefixes, "restarts": len(jobs)}
 	c.Obs.Rule = "histories as in C02 (finite logs over pts/qts/channels, loss, delay, duplication, sliced and too-long differences, real gap timers); every prefix of the interleaved trace of storage writes / handler calls / too-long callbacks is a crash point for the oracle; real restarts (second Manager on the storage content of the crash point, same server, then full recovery) at sampled crash points (quick: ~200, biased to the neighbourhood of storage writes; thorough: every prefix); non-trivial = distinct history with at least two storage writes"
 	c.Finish()
-}
-
-// tlTargets replays the too-long bookkeeping of a trace prefix.
-func tlTargets(res updsim.Result, upto int) map[int]int {
-	out := map[int]int{}
-	served := map[int][]int{}
-	for _, e := range res.Trace[:upto] {
-		switch e.T {
-		case updsim.EvAPI:
-			var v int
-			if _, err := fmt.Sscanf(e.Info, "tooLong pts=%d", &v); err == nil {
-				served[e.Seq] = append(served[e.Seq], v)
-			}
-		case updsim.EvTooLong:
-			if len(served[e.Seq]) > 0 {
-				if served[e.Seq][0] > out[e.Seq] {
-					out[e.Seq] = served[e.Seq][0]
-				}
-				served[e.Seq] = served[e.Seq][1:]
-			}
-		}
-	}
-	return out
 }
